@@ -121,7 +121,10 @@ def gen_spec(seed, profile="core", variant=None, templates=None):
     rng = random.Random(seed)
     variant = variant or rng.choice(("plain", "plain", "congested", "starved", "finite", "finite"))
     congested = variant == "congested"
-    template = rng.choice([t for t in (templates or ()) if t != "twin"] or ("line", "line", "line", "diamond", "pack", "packunpack", "multisink", "fanin", "splitline", "mesh", "rework", "packpack"))
+    template = rng.choice([t for t in (templates or ()) if t != "twin"] or ("line", "line", "line", "diamond", "pack", "packunpack", "multisink", "fanin", "splitline", "mesh", "rework", "packpack", "syncfan"))
+    if template == "syncfan" and variant in ("finite", "starved"):
+        variant = "plain"        # the template is about a saturated chooser
+        congested = False
     item_len = rng.choice((1, 1, 0.5))
     nodes, conns = [], []
     force, edge_force = {}, {}
@@ -272,6 +275,56 @@ def gen_spec(seed, profile="core", variant=None, templates=None):
                 last = "P0"
             sink("K0")
             conn(last, "K0")
+        elif template == "syncfan":
+            # a saturated chooser (source / machine / splitter / combiner) in front of 2-3 one-place buffers whose consumers have
+            # commensurate constant delays on a dyadic lattice and different in-policies / worker counts: several out-edges get
+            # room in the very same simulated instant, a few kernel events apart and in either index order (what FIRST_AVAILABLE,
+            # "the lowest-index edge able to serve at the instant of choice", has to get right; seed R7F_1)
+            kind = rng.choice(("combiner", "combiner", "machine", "splitter", "source"))
+            nout = rng.choice((2, 2, 3))
+            fast = {"kind": "const", "seq": [rng.choice((0.125, 0.25))]}
+            cdelay = {"kind": "const", "seq": [rng.choice((0.25, 0.5, 0.5, 0))]}
+            chooser_pol = rng.choice(("FIRST_AVAILABLE", "FIRST_AVAILABLE", "FIRST_AVAILABLE", "ROUND_ROBIN", None))
+            feed_edge = {"type": "buffer_fifo", "capacity": 3, "delay": {"kind": "const", "seq": [0]}, "mode": "FIFO"}
+            if kind == "combiner":
+                recipe = rng.choice(([1, 1], [1, 1], [1, 2], [1, 1, 1]))
+                src("SP", "pallet")
+                force[px + "SP"] = {"blocking": True, "ia": dict(fast)}
+                combiner("X0", recipe)
+                conn("SP", "X0")
+                edge_force[(px + "SP", px + "X0")] = feed_edge
+                for i in range(1, len(recipe)):
+                    src(f"SI{i}")
+                    force[px + f"SI{i}"] = {"blocking": True, "ia": dict(fast)}
+                    conn(f"SI{i}", "X0")
+                    edge_force[(px + f"SI{i}", px + "X0")] = feed_edge
+            elif kind == "source":
+                src("X0")
+                force[px + "X0"] = {"ia": dict(fast)}
+            else:
+                src("S0", "pallet" if kind == "splitter" else "item")
+                force[px + "S0"] = {"blocking": True, "ia": dict(fast)}
+                (splitter if kind == "splitter" else machine)("X0")
+                conn("S0", "X0")
+                edge_force[(px + "S0", px + "X0")] = feed_edge
+            fx = {"blocking": rng.random() < 0.85, "setup": 0}
+            if kind != "source":
+                fx["delay"] = cdelay
+            if kind == "machine":
+                fx["wc"] = rng.choice((1, 1, 2))
+            if chooser_pol:
+                fx["out_sel"] = chooser_pol
+            force[px + "X0"] = dict(force.get(px + "X0", {}), **fx)
+            for j in range(nout):
+                machine(f"M{j}")
+                force[px + f"M{j}"] = {"delay": {"kind": "const", "seq": [rng.choice((0.5, 1, 1.5, 2, 3))]}, "wc": rng.choice((1, 1, 1, 2)),
+                                       "in_sel": rng.choice(("FIRST_AVAILABLE", "ROUND_ROBIN", "FIRST_AVAILABLE", 0, "RANDOM")),
+                                       "out_sel": rng.choice(("FIRST_AVAILABLE", "ROUND_ROBIN", 0)), "setup": 0, "blocking": True}
+                conn("X0", f"M{j}")
+                edge_force[(px + "X0", px + f"M{j}")] = {"type": "buffer_fifo", "capacity": 1, "delay": {"kind": "const", "seq": [0]}, "mode": "FIFO"}
+                sink(f"K{j}")
+                conn(f"M{j}", f"K{j}")
+                edge_force[(px + f"M{j}", px + f"K{j}")] = {"type": "buffer_fifo", "capacity": 50, "delay": {"kind": "const", "seq": [0]}, "mode": "FIFO"}
         elif template == "multisink":
             src("S0")
             machine("M0")
